@@ -10,6 +10,8 @@ Scenario (dict):
   fireCont, skipUtf8
   calls      list of [api, control] used cyclically
   max_calls  budget
+  prior_stream bytes of an earlier connection of the same object (then end of stream); implies via_connect
+  head_chunk   with via_connect: the response head is handed over at most this many bytes per read
   via_connect  run the real opening handshake over the same transport (head + frames in one flow)
 """
 import errno
@@ -42,7 +44,7 @@ class FakeSock:
         self.shut = False
         self.timeout = 0 if sc.get("nonblocking") else 7
         self.req = bytearray()
-        self.handshaking = bool(sc.get("via_connect"))
+        self.handshaking = bool(sc.get("via_connect") or sc.get("prior_stream") is not None)
         self.sent = []
         self.ops = 0
         self.last_exc = None
@@ -78,7 +80,9 @@ class FakeSock:
             self._raise(OSError(errno.EBADF, "Bad file descriptor"))
         if self.hpos < len(self.head):       # handshake response head: not part of the frame trace
             k = min(n, len(self.head) - self.hpos)
-            if n > 1:
+            if self.sc.get("head_chunk"):
+                k = min(k, self.sc["head_chunk"])          # the response head arrives in small pieces
+            if n > 1 and k == len(self.head) - self.hpos:
                 # an implementation that asks for more than it needs gets frame bytes too
                 extra = min(n - k, len(self.stream) - self.pos)
             else:
@@ -180,8 +184,25 @@ def run_scenario(sc):
         nullh = logging.NullHandler()
         lvl0 = logging.getLogger("websocket").level
         websocket.enableTrace(True, handler=nullh, level="DEBUG")
-    if sc.get("via_connect"):
-        ws.connect("ws://example.test/chat", socket=fake)
+    if sc.get("prior_stream") is not None:
+        # an earlier conversation of the same object that ended (end of stream) in the middle of a frame or message:
+        # nothing of it may show in the conversation that is judged
+        fake0 = FakeSock({"stream": bytes(sc["prior_stream"]), "via_connect": True, "end": "eof"}, lambda e: None)
+        ws.connect("ws://example.test/earlier", socket=fake0)
+        fake0.frame_phase = True
+        for _ in range(4):
+            try:
+                ws.recv_data_frame(True)
+            except Exception:      # noqa
+                break
+        ws.close(timeout=0)
+    if sc.get("via_connect") or sc.get("prior_stream") is not None:
+        try:
+            ws.connect("ws://example.test/chat", socket=fake)
+        except Exception as e:      # noqa   the (valid) response head was not accepted
+            log({"ev": "connect_failed", "cls": type(e).__name__, "msg": str(e)[:80]})
+            log({"ev": "end"})
+            return ev
         if not ws.connected:
             raise RuntimeError("connect over prepared transport did not connect")
     else:
